@@ -30,10 +30,10 @@ def roundtrip_specs(tier, shapes, tag):
             if tier == "thorough" and env["VB_TRAIL"] == "0" and env["VB_REP"] == ("1" if shape == "multi" else "0"):
                 # deeper bounds on a third of the skeletons (every format x separator x quoting once per shape)
                 e2 = dict(env, VB_SHAPE=shape, VB_VLEN=2)
-                out.append(XSpec("%s[%s,%s,value<=2 chars]" % (tag, name, shape), H, "cond_roundtrip1", "reach_roundtrip1", timeout=900, env=e2,
+                out.append(XSpec("%s[%s,%s,value<=2 chars]" % (tag, name, shape), H, "cond_roundtrip1", "reach_roundtrip1", timeout=600, env=e2,
                                  bounds=dict(skeleton=name, shape=shape, value="1-2 arbitrary characters")))
                 out.append(XSpec("%s[%s,%s,2 arbitrary values]" % (tag, name, shape), H, "cond_roundtrip", "reach_roundtrip",
-                                 timeout=1500, env=dict(e, VB_FIXKEYS=1), bounds=dict(skeleton=name, shape=shape, values="2 arbitrary characters")))
+                                 timeout=600, env=dict(e, VB_FIXKEYS=1), bounds=dict(skeleton=name, shape=shape, values="2 arbitrary characters")))
         if tier == "thorough" and env["VB_TRAIL"] == "1":
             e = dict(env, VB_SHAPE="three", VB_VLEN=1)
             out.append(XSpec("%s[%s,three attributes]" % (tag, name), H, "cond_roundtrip1", "reach_roundtrip1", timeout=600, env=e,
